@@ -1,6 +1,7 @@
 package main
 
 import (
+	"fmt"
 	"go/ast"
 	"go/token"
 	"go/types"
@@ -276,7 +277,14 @@ func (P *Prog) enclosing(pos token.Pos) ([]ast.Node, *types.Info) {
 // normExpr prints an expression with every local identifier replaced by its type, so
 // that renaming locals does not change obligation keys. Package-level names, fields,
 // methods and literals are kept.
-func normExpr(info *types.Info, e ast.Expr) string {
+func normExpr(info *types.Info, e ast.Expr) string { return printExpr(info, e, false) }
+
+// idExpr prints an expression with every local identifier tagged by its declaration, so that
+// two prints are equal only if they mention the same variables: the provers compare with
+// this one (normExpr would equate two different locals of one type).
+func idExpr(info *types.Info, e ast.Expr) string { return printExpr(info, e, true) }
+
+func printExpr(info *types.Info, e ast.Expr, identity bool) string {
 	var sb strings.Builder
 	depth := 0
 	top := false // the expression being printed is a whole index / slice bound: no parentheses needed around an inlined definition
@@ -293,6 +301,14 @@ func normExpr(info *types.Info, e ast.Expr) string {
 			}
 			// a local that is assigned exactly once from a simple arithmetic expression is
 			// replaced by that expression (`start := i * m; x[start:]` reads as `x[i*m:]`)
+			if identity {
+				if v, ok := obj.(*types.Var); ok && !v.IsField() {
+					sb.WriteString(fmt.Sprintf("%s@%d", e.Name, v.Pos()))
+					return
+				}
+				sb.WriteString(e.Name)
+				return
+			}
 			if def := singleArithDef(info, obj); def != nil && depth < 3 {
 				depth++
 				_, atom := def.(*ast.BinaryExpr)
